@@ -218,6 +218,12 @@ def replay_generic(rec):
         for flag in ('', c['interpreter']):
             if flag == 'debug-logging':
                 subprocess.run([sys.executable, '-c', "import logging; logging.basicConfig(level=logging.DEBUG, handlers=[logging.NullHandler()]); print('DEBUG logging on'); " + code])
+            elif flag == 'line-tracer':
+                subprocess.run([sys.executable, '-c', "import sys\ndef _t(f, e, a):\n    f.f_locals\n    return _t\nsys.settrace(_t); print('line tracer reading f_locals'); " + code])
+            elif flag == 'prec=3':
+                subprocess.run([sys.executable, '-c', "import decimal; decimal.getcontext().prec = 3; print('ambient decimal precision 3'); " + code])
+            elif flag.startswith('decimal-'):
+                subprocess.run([sys.executable, '-c', "import decimal; decimal.getcontext().rounding = decimal.%s; print('ambient decimal rounding %s'); " % (flag[8:], flag[8:]) + code])
             else:
                 subprocess.run([sys.executable] + ([flag] if flag else []) + ['-c', code])
         return 1
